@@ -17,7 +17,6 @@
 """
 import copy
 import json
-import threading
 from concurrent.futures import ThreadPoolExecutor
 
 from harness.core import (MachineryError, model_check, read_events, require, run_driver, run_drivers_parallel, seed, selftest_trace,
@@ -25,29 +24,29 @@ from harness.core import (MachineryError, model_check, read_events, require, run
 
 PID = "C15"
 MAX_REPORTED = 5      # failing events reported per trace and clause (the totals are in the evidence)
+SELF = 10 ** 7        # tids >= SELF are deliberately corrupted copies of real events (binding self-test)
 
-# name -> (cfg of C15_Sat, text)
+# (name, cfg of C15_Sat, text)
 UNIVERSES_QUICK = [
-    ("seq2", "C15_Sat_seq2.cfg", "2 vars, clauses = literal sequences of length <= 2, <= 3 clauses (9 724 CNFs)"),
-    ("set3", "C15_Sat_set3.cfg", "3 vars, all sets of <= 3 clauses of <= 3 distinct literals (12 384 CNFs)"),
-    ("set2w", "C15_Sat_set2w.cfg", "2 vars, all sets of <= 6 clauses of <= 2 distinct literals (1 486 CNFs)"),
+    ("small", "C15_Sat_quick.cfg", "2 vars: literal sequences of length <= 2, <= 3 clauses (9 724); 3 vars: all sets of <= 3 clauses "
+                                   "of <= 3 distinct literals up to renaming of the variables; 2 vars: all sets of <= 6 clauses of <= 2 literals (1 486)"),
 ]
 UNIVERSES_THOROUGH = [
     ("seq2x", "C15_Sat_seq2x.cfg", "2 vars, literal sequences of length <= 2, <= 4 clauses (204 205 CNFs)"),
-    ("set3x", "C15_Sat_set3x.cfg", "3 vars, all sets of <= 4 clauses of <= 3 distinct literals (124 314 CNFs)"),
-    ("seq3", "C15_Sat_seq3.cfg", "3 vars, literal sequences of length <= 2, <= 3 clauses (81 400 CNFs)"),
-    ("set2w", "C15_Sat_set2w.cfg", "2 vars, all sets of <= 6 clauses of <= 2 distinct literals (1 486 CNFs)"),
+    ("set3x", "C15_Sat_set3x.cfg", "3 vars, all sets of <= 4 clauses of <= 3 distinct literals, one representative per renaming of the variables"),
+    ("seq3", "C15_Sat_seq3.cfg", "3 vars, literal sequences of length <= 2, <= 3 clauses (81 400 CNFs) + 2 vars, all sets of <= 6 clauses (1 486)"),
 ]
-
-_lock = threading.Lock()
 
 
 def _truncate(v, evs):
     """Keep the MAX_REPORTED smallest failing events per clause; return (verdict', totals per clause)."""
     by_tid = {e["tid"]: e for e in evs}
+
+    def size(f):
+        e = by_tid.get(f["tid"], {})
+        return (len(json.dumps(e.get("cnf", e.get("formula", "")))), f["tid"])
     totals, kept, per = {}, [], {}
-    fails = sorted(v["fails"], key=lambda f: (len(json.dumps(by_tid.get(f["tid"], {}).get("cnf", by_tid.get(f["tid"], {}).get("formula", "")))), f["tid"]))
-    for f in fails:
+    for f in sorted(v["fails"], key=size):
         keep = []
         for c in f["fail"]:
             totals[c] = totals.get(c, 0) + 1
@@ -61,41 +60,125 @@ def _truncate(v, evs):
     return v2, totals
 
 
-def _add_trace(rep, name, path, v):
-    evs = read_events(path)
+def _add_trace(rep, name, evs, v):
     v2, totals = _truncate(v, evs)
     rep.add_trace_result(name, evs, v2)
     if totals:
         rep.notes.setdefault("failing_events_per_clause", {})[name] = totals
         rep.notes["traces"][name]["fails"] = len(v["fails"])
+
+
+def _merge(paths, out):
+    """Concatenate event files, renumbering tids (one JVM per trace specification instead of one per file)."""
+    evs = []
+    for p in paths:
+        evs += read_events(p)
+    for i, e in enumerate(evs):
+        e["tid"] = i + 1
+    write_events(out, evs)
     return evs
 
 
-def sat_pipeline(name, cfg, text, wd, env, dedup, quick):
-    """S (enumerate + reference) -> code -> I (as coded, with conformance) -> T.  Returns a dict of results."""
+def _validate_with_selftest(rep, tspec, evs, corrupted, path, wd, nchunks):
+    """Validate the real events and, in the same TLC run(s), deliberately corrupted copies (tid >= SELF, each with the
+    clause that must reject it).  Returns the verdict of the real events only."""
+    require(corrupted, "self-test for %s has no events" % tspec)
+    write_events(path, evs + [c for c, _ in corrupted])
+    v = validate_trace(tspec, path, wd=wd, nchunks=nchunks)
+    flagged = {f["tid"]: f["fail"] for f in v["fails"]}
+    missing = [(c["tid"], cl) for c, cl in corrupted if cl not in flagged.get(c["tid"], [])]
+    if missing:
+        raise MachineryError("self-test: %s accepted corrupted events %s" % (tspec, missing[:5]))
+    rep.notes.setdefault("selftests", []).append({"spec": tspec, "corrupted_events": len(corrupted),
+                                                  "all_rejected_with": sorted({cl for _, cl in corrupted})})
+    v = dict(v)
+    v["consumed"] -= len(corrupted)
+    for k in ("nontrivial", "divergences"):
+        v[k] = [t for t in v[k] if t < SELF]
+    v["fails"] = [f for f in v["fails"] if f["tid"] < SELF]
+    return v
+
+
+def _corrupt_solve(evs):
+    bad = []
+    n1 = n2 = n3 = 0
+    for e in evs:
+        if e["verdict"] == "sat" and e["cnf"] and n1 < 4:
+            c = copy.deepcopy(e)
+            c["assignment"] = []                               # the recorded assignment is lost: no clause is satisfied
+            c["tid"] = SELF + len(bad)
+            bad.append((c, "Satisfies"))
+            n1 += 1
+        if e["verdict"] == "unsat" and n2 < 4 and e["proofs"]:
+            steps = e["proofs"][-1][1]
+            if len(steps) >= 2 and steps[0] < len(e["cnf"]) and e["cnf"][steps[0]]:
+                c = copy.deepcopy(e)
+                c["proofs"][-1][1] = steps[:1]                 # resolution steps dropped: the last clause is not empty
+                c["tid"] = SELF + len(bad)
+                bad.append((c, "Refutation"))
+                n2 += 1
+        if e["verdict"] == "sat" and e["cnf"] and n3 < 3:
+            c = copy.deepcopy(e)
+            c["verdict"], c["assignment"], c["proofs"] = "unsat", [], [[len(e["cnf"]), [0]]]   # verdict flipped
+            c["tid"] = SELF + len(bad)
+            bad.append((c, "Agrees"))
+            n3 += 1
+    return bad
+
+
+def _corrupt_tseitin(evs):
+    bad = []
+    for e in evs:
+        if e["kind"] == "tseitin" and e["outcome"] == "ok" and e["formula"][0] == "atom" and len(bad) < 3:
+            c = copy.deepcopy(e)
+            c["concl"] = ["not", c["concl"]]                   # x1 <-> a, a |- ~x1
+            c["tid"] = SELF + len(bad)
+            bad.append((c, "Valid"))
+    for e in evs:
+        if e["kind"] == "tseitin" and e["outcome"] == "ok" and len(e["cnf"]) >= 3 and len(bad) < 6:
+            c = copy.deepcopy(e)
+            c["cnf"] = c["cnf"][1:]                             # the unit clause of the top variable is lost
+            c["tid"] = SELF + len(bad)
+            bad.append((c, "CnfOfTheorem"))
+    return bad
+
+
+def sat_pipeline(rep_notes, name, cfg, text, wd, env, dedup, quick, extra_events):
+    """S (enumerate + reference) -> code -> I (as coded, with conformance) || T.  Returns a dict of results."""
     out = {"name": name, "text": text}
     vec = wd / ("vec_%s.ndjson" % name)
-    out["S"] = model_check("C15_Sat", cfg, wd=wd / ("mcS_" + name), workers=2, env={"VECTOR_FILE": vec}, timeout=3000)
+    out["S"] = model_check("C15_Sat", cfg, wd=wd / ("mcS_" + name), workers=2 if quick else 1, env={"VECTOR_FILE": vec}, timeout=5000)
     if out["S"].violated:
         return out
     require(vec.exists(), "C15_Sat did not emit vectors for " + name)
-    nvec = sum(1 for _ in open(vec))
-    out["nvec"] = nvec
+    out["nvec"] = sum(1 for _ in open(vec))
     ev = wd / ("ev_%s.ndjson" % name)
-    run_driver("c15", ["solve", vec, ev, name], env=env, timeout=3000)
+    run_driver("c15", ["solve", vec, ev, name], env=env, timeout=5000)
     out["events"] = ev
-    # I: the algorithm as coded, constants from the probe, initial states = the vectors, conformance with the events
     conf = wd / ("conf_%s.json" % name)
     ienv = {"VECTOR_FILE": vec, "EVENT_FILE": ev, "CONF_FILE": conf}
     icfg = "C15_SatImpl_dedup.cfg" if dedup else "C15_SatImpl_asis.cfg"
-    out["I"] = model_check("C15_SatImpl", icfg, wd=wd / ("mcI_" + name), workers=1, env=ienv, timeout=3000)
     out["I_cfg"] = icfg
-    if out["I"].violated and not dedup:
-        # the model of the code that is present loops: still establish that it is the code's behaviour (pruned run)
-        out["I2"] = model_check("C15_SatImpl", "C15_SatImpl_asis_conf.cfg", wd=wd / ("mcI2_" + name), workers=1, env=ienv, timeout=3000)
-    if conf.exists():
-        out["conf"] = json.load(open(conf))
-    out["T"] = validate_trace("C15_SatTrace", ev, wd=wd / ("tv_" + name), nchunks=1 if quick else 3)
+
+    def impl():
+        # I: the algorithm as coded, constant from the probe, initial states = the vectors, conformance with the events
+        out["I"] = model_check("C15_SatImpl", icfg, wd=wd / ("mcI_" + name), workers=1, env=ienv, timeout=5000)
+        if out["I"].violated and not dedup:
+            # the model of the code that is present loops: still establish that it IS the code's behaviour (pruned run)
+            out["I2"] = model_check("C15_SatImpl", "C15_SatImpl_asis_conf.cfg", wd=wd / ("mcI2_" + name), workers=1, env=ienv, timeout=5000)
+        if conf.exists():
+            out["conf"] = json.load(open(conf))
+
+    def trace():
+        evs = _merge([ev] + [p() for p in extra_events], wd / ("all_%s.ndjson" % name))
+        out["evs"] = evs
+        out["T"] = _validate_with_selftest(out["rep"], "C15_SatTrace", evs, _corrupt_solve(evs), wd / ("allst_%s.ndjson" % name),
+                                           wd / ("tv_" + name), 1 if quick else 3)
+    out["rep"] = rep_notes
+    with ThreadPoolExecutor(max_workers=2) as ex:
+        fs = [ex.submit(impl), ex.submit(trace)]
+        for f in fs:
+            f.result()
     return out
 
 
@@ -113,7 +196,7 @@ def run(rep, tier):
                 "truth tables), or a time-out explained by a loop of the I-model; distinct by input and recorded result.")
     rep.assumptions = ["TLC/SANY and the CommunityModules; CPython; the 40-line structural projection of HOL terms to propositional structure in harness/drivers/c15.py (reads raw fields only)",
                        "exhaustive-search cross-check of the verdict only up to 12 variables (unsat) / 6 variables (sat); beyond that the verdict is justified by the replayed certificate (S: ResolutionSound, CertificateOnlyIfUnsat)",
-                       "truth tables only up to 12-14 atoms (larger theorems are not examined)",
+                       "truth tables only up to 12 atoms (larger theorems are not examined)",
                        "a time-out is a violation only when the I-model (Dedup from a behavioural probe) loops from the same CNF; other time-outs are re-run with a 6 s alarm and reported as SUSPECT",
                        "sat/zchaff.py drives an external Windows binary (zchaff.exe): only the tseitin.encode part it shares is exercised"]
     # ---- which code is present?  (constant of the I specification)
@@ -123,24 +206,25 @@ def run(rep, tier):
     dedup = bool(pr["dup_returns"])
     rep.notes["probe"] = pr
     env = {"C15_DEDUP": "1" if dedup else "0"}
-
     universes = UNIVERSES_QUICK if quick else UNIVERSES_THOROUGH
 
-    def random_pipeline():
+    def random_events():
         ev = wd / "ev_rand.ndjson"
-        run_driver("c15", ["random", 2500 if quick else 60000, ev, seed()], env=env, timeout=3000)
-        return {"events": ev, "T": validate_trace("C15_SatTrace", ev, wd=wd / "tv_rand", nchunks=1 if quick else 3)}
+        run_driver("c15", ["random", 2500 if quick else 30000, ev, seed()], env=env, timeout=5000)
+        return ev
 
-    def shuffle_pipeline(name, vec, k):
-        ev = wd / ("ev_%s_shuf%d.ndjson" % (name, k))
-        run_driver("c15", ["solve", vec, ev, name + "~", seed() * 1000 + k + 1], env=env, timeout=3000)
-        return {"events": ev, "T": validate_trace("C15_SatTrace", ev, wd=wd / ("tv_%s_shuf%d" % (name, k)), nchunks=1 if quick else 3)}
+    def shuffled_events(name, k):
+        def f():
+            ev = wd / ("ev_%s_shuf%d.ndjson" % (name, k))
+            run_driver("c15", ["solve", wd / ("vec_%s.ndjson" % name), ev, name + "~", seed() * 1000 + k + 1], env=env, timeout=5000)
+            return ev
+        return f
 
     def tseitin_pipeline():
         out = {}
         vec = wd / "vec_formulas.ndjson"
         cfg = "C15_Tseitin_small.cfg" if quick else "C15_Tseitin_deep.cfg"
-        out["S"] = model_check("C15_Tseitin", cfg, wd=wd / "mcS_tseitin", workers=2, env={"VECTOR_FILE": vec}, timeout=3000)
+        out["S"] = model_check("C15_Tseitin", cfg, wd=wd / "mcS_tseitin", workers=1 if quick else 2, env={"VECTOR_FILE": vec}, timeout=5000)
         out["cfg"] = cfg
         if out["S"].violated:
             return out
@@ -148,33 +232,51 @@ def run(rep, tier):
         ev, sev = wd / "ev_tseitin.ndjson", wd / "ev_tseitin_solve.ndjson"
         rev, rsev = wd / "ev_rformulas.ndjson", wd / "ev_rformulas_solve.ndjson"
         if quick:
-            # all formulas with <= 1 connective, a seeded sample of 260 of the 2-connective ones, 60 random larger ones
-            jobs = [("c15", ["tseitin", vec, ev, sev, seed(), 1, 260, "prove"], env),
-                    ("c15", ["rformulas", 60, rev, rsev, seed(), "prove"], env)]
+            # all formulas with <= 1 connective, a seeded sample of 230 of the 2-connective ones, 40 random larger ones
+            jobs = [("c15", ["tseitin", vec, ev, sev, seed(), 1, 230, "prove"], env),
+                    ("c15", ["rformulas", 40, rev, rsev, seed(), "prove"], env)]
         else:
-            jobs = [("c15", ["tseitin", vec, ev, sev, seed(), 2, 2500, "prove"], env),
-                    ("c15", ["rformulas", 1500, rev, rsev, seed(), "prove"], env)]
+            jobs = [("c15", ["tseitin", vec, ev, sev, seed(), 2, 1800, "prove"], env),
+                    ("c15", ["rformulas", 1000, rev, rsev, seed(), "prove"], env)]
         run_drivers_parallel(jobs, timeout=6000, max_workers=2)
-        out["traces"] = []
-        for nm, p, spec in (("tseitin", ev, "C15_TseitinTrace"), ("tseitin_cnf", sev, "C15_SatTrace"),
-                            ("rformulas", rev, "C15_TseitinTrace"), ("rformulas_cnf", rsev, "C15_SatTrace")):
-            out["traces"].append((nm, p, validate_trace(spec, p, wd=wd / ("tv_" + nm), nchunks=1 if quick else 3)))
+        evs = _merge([ev, rev], wd / "all_tseitin.ndjson")
+        out["evs"] = evs
+        out["T"] = _validate_with_selftest(rep, "C15_TseitinTrace", evs, _corrupt_tseitin(evs), wd / "allst_tseitin.ndjson",
+                                           wd / "tv_tseitin", 1 if quick else 3)
+        sevs = _merge([sev, rsev], wd / "all_tseitin_cnf.ndjson")
+        out["sevs"] = sevs
+        out["Ts"] = validate_trace("C15_SatTrace", wd / "all_tseitin_cnf.ndjson", wd=wd / "tv_tseitin_cnf", nchunks=1)
         return out
 
-    with ThreadPoolExecutor(max_workers=3) as ex:
-        f_ts = ex.submit(tseitin_pipeline)
-        f_sat = [ex.submit(sat_pipeline, n, c, t, wd, env, dedup, quick) for (n, c, t) in universes]
-        f_rand = ex.submit(random_pipeline)
-        sat_res = [f.result() for f in f_sat]
-        rand_res = f_rand.result()
-        ts_res = f_ts.result()
-        shuf = []
+    def mutants():
+        # resolution as sat.py::resolution does it (drop EVERY literal on the pivot name) is unsound on tautological
+        # clauses ({x | ~x, x} would be refuted): the reference must notice
+        spec_mutant(rep, "resolution_drops_every_literal_on_pivot", "C15_Sat", "C15_Sat_quick.cfg",
+                    [("C15_SatCore.tla", "Resolve(C, D, l) == (C \\ {l}) \\cup (D \\ {Neg(l)})",
+                      "Resolve(C, D, l) == { k \\in C \\cup D : k[1] # l[1] }")],
+                    ["ResolutionSound", "RefutationComplete", "CertificateOnlyIfUnsat"], wd=wd, workers=1,
+                    env={"VECTOR_FILE": wd / "mutant_vectors.ndjson"})
         if not quick:
-            fs = [ex.submit(shuffle_pipeline, r["name"], wd / ("vec_%s.ndjson" % r["name"]), k)
-                  for r in sat_res if "nvec" in r and r["name"] in ("set3x", "seq3") for k in range(1)]
-            shuf = [f.result() for f in fs]
+            # the reference encoding of a conjunction without  ~x | z : a & ~a would become satisfiable
+            spec_mutant(rep, "tseitin_and_without_second_clause", "C15_Tseitin", "C15_Tseitin_small.cfg",
+                        [("C15_Prop.tla", "[] g[1] = \"and\" -> << << <<x, FALSE>>, <<N(g[2]), TRUE>> >>, << <<x, FALSE>>, <<N(g[3]), TRUE>> >>,",
+                          "[] g[1] = \"and\" -> << << <<x, FALSE>>, <<N(g[2]), TRUE>> >>, << <<x, FALSE>>, <<N(g[2]), TRUE>> >>,")],
+                        ["RefEquisat"], wd=wd, workers=1, env={"VECTOR_FILE": wd / "mutant_vectors2.ndjson"})
 
-    # ---- bookkeeping (main thread)
+    with ThreadPoolExecutor(max_workers=4) as ex:
+        f_ts = ex.submit(tseitin_pipeline)
+        f_sat = []
+        for i, (n, c, t) in enumerate(universes):
+            extra = [random_events] if i == 0 else []
+            if not quick and n in ("set3x", "seq3"):
+                extra.append(shuffled_events(n, 0))
+            f_sat.append(ex.submit(sat_pipeline, rep, n, c, t, wd, env, dedup, quick, extra))
+        f_mut = ex.submit(mutants)
+        sat_res = [f.result() for f in f_sat]
+        ts_res = f_ts.result()
+        f_mut.result()
+
+    # ---- bookkeeping
     design_reported = False
     conf_notes = {}
     for r in sat_res:
@@ -189,9 +291,9 @@ def run(rep, tier):
                 rep.design_violation("C15_SatImpl", r["I"])
                 design_reported = True
             if "I2" in r:
-                rep.add_mc("C15_SatImpl[%s,pruned]" % r["name"], r["I2"], "C15_SatImpl_asis_conf.cfg (conformance only)")
-                if r["I2"].violated and not design_reported:
-                    rep.design_violation("C15_SatImpl", r["I2"])
+                rep.add_mc("C15_SatImpl[%s,pruned]" % r["name"], r["I2"], "C15_SatImpl_asis_conf.cfg (conformance of the looping model)")
+                if r["I2"].violated:
+                    rep.design_violation("C15_SatImpl_pruned", r["I2"])
         c = r.get("conf")
         if c is not None:
             require(c["aligned"], "C15: events and vectors of %s are not aligned" % r["name"])
@@ -199,27 +301,21 @@ def run(rep, tier):
                                      "cnfs_where_model_loops": len(c["looping"]), "unexplained_by_model": len(c["unexplained"]),
                                      "unexplained_sample": c["unexplained"][:10]}
             rep.divergences += len(c["unexplained"])
-        _add_trace(rep, "solve_" + r["name"], r["events"], r["T"])
+        _add_trace(rep, "solve_" + r["name"], r["evs"], r["T"])
     rep.notes["impl_conformance"] = conf_notes
-    _add_trace(rep, "solve_random", rand_res["events"], rand_res["T"])
-    for i, s in enumerate(shuf):
-        _add_trace(rep, "solve_shuffled_%d" % i, s["events"], s["T"])
     rep.add_mc("C15_Tseitin", ts_res["S"], ts_res["cfg"])
     if ts_res["S"].violated:
         rep.design_violation("C15_Tseitin", ts_res["S"])
     else:
-        for nm, p, v in ts_res["traces"]:
-            _add_trace(rep, nm, p, v)
+        _add_trace(rep, "tseitin", ts_res["evs"], ts_res["T"])
+        _add_trace(rep, "solve_tseitin_cnf", ts_res["sevs"], ts_res["Ts"])
     rep.exhaustive = True
 
     # ---- unexplained time-outs: re-run with the long alarm, report what remains as SUSPECT (never a violation)
     suspects = []
-    for nm, p, v in ([("solve_" + r["name"], r.get("events"), r.get("T")) for r in sat_res if r.get("T")]
-                     + [("solve_random", rand_res["events"], rand_res["T"])]
-                     + [(nm, p, v) for nm, p, v in ts_res.get("traces", []) if nm.endswith("_cnf")]):
-        if v["divergences"]:
-            dv = set(v["divergences"])
-            suspects += [e for e in read_events(p) if e["tid"] in dv]
+    for evs, v in [(r["evs"], r["T"]) for r in sat_res if "T" in r] + ([(ts_res["sevs"], ts_res["Ts"])] if "Ts" in ts_res else []):
+        dv = set(v["divergences"])
+        suspects += [e for e in evs if e["tid"] in dv]
     if suspects:
         sp, sp2 = wd / "suspects.ndjson", wd / "suspects_rerun.ndjson"
         write_events(sp, suspects[:40])
@@ -229,75 +325,35 @@ def run(rep, tier):
         for e in still:
             print("SUSPECT property=C15 time-out not explained by the model: %s %s" % (e["key"], json.dumps(e["cnf"])[:200]))
 
-    # ---- vacuity guards
+    # ---- vacuity guards (counting only)
     tr = rep.notes["traces"]
-    allsolve = []
-    for r in sat_res:
-        if r.get("events"):
-            allsolve += read_events(r["events"])
-    rnd = read_events(rand_res["events"])
-    n_unsat = sum(1 for e in allsolve if e["verdict"] == "unsat")
-    n_sat = sum(1 for e in allsolve if e["verdict"] == "sat")
+    allsolve = [e for r in sat_res for e in r.get("evs", [])]
+    enum = [e for e in allsolve if e["src"] != "rand"]
+    rnd = [e for e in allsolve if e["src"] == "rand"]
+    n_unsat = sum(1 for e in enum if e["verdict"] == "unsat")
+    n_sat = sum(1 for e in enum if e["verdict"] == "sat")
     n_multi = sum(1 for e in rnd if e["verdict"] == "unsat" and len(e["proofs"]) >= 3)
-    n_dup = sum(1 for e in allsolve if any(len({tuple(l) for l in c}) < len(c) for c in e["cnf"]))
+    n_dup = sum(1 for e in enum if any(len({tuple(l) for l in c}) < len(c) for c in e["cnf"]))
     rep.notes["counts"] = {"enumerated_sat": n_sat, "enumerated_unsat": n_unsat, "enumerated_with_duplicated_literal": n_dup,
-                           "random_unsat_with_3+_learned_clauses": n_multi,
+                           "enumerated_timeout": sum(1 for e in enum if e["verdict"] == "timeout"),
+                           "random": len(rnd), "random_unsat_with_3+_learned_clauses": n_multi,
+                           "random_timeout": sum(1 for e in rnd if e["verdict"] == "timeout"),
                            "random_max_conflicts": max([e["conflicts"] for e in rnd if e["verdict"] != "timeout"] + [0])}
-    require(n_sat >= 5000 and n_unsat >= 1500 and n_dup >= 1000, "C15: too few enumerated sat/unsat/duplicate-literal CNFs (vacuity guard)")
-    require(tr["solve_random"]["nontrivial"] >= 0.9 * tr["solve_random"]["events"] and n_multi >= (40 if quick else 1000),
-            "C15: random CNFs do not exercise multi-conflict refutations (vacuity guard)")
+    if all("T" in r for r in sat_res):
+        require(n_sat >= 5000 and n_unsat >= 1500 and n_dup >= 1000, "C15: too few enumerated sat/unsat/duplicate-literal CNFs (vacuity guard)")
+        require(n_multi >= (40 if quick else 1000), "C15: random CNFs do not exercise multi-conflict refutations (vacuity guard)")
+        require(sum(tr[k]["nontrivial"] for k in tr if k.startswith("solve_")) >= 0.85 * sum(tr[k]["events"] for k in tr if k.startswith("solve_")),
+                "C15: too few solve events examined (vacuity guard)")
     if not ts_res["S"].violated:
         require(tr["tseitin"]["nontrivial"] >= (250 if quick else 3000), "C15: too few examined Tseitin theorems (vacuity guard)")
 
-    # ---- binding self-tests: corrupt recorded fields of real events, T must reject
-    first = next(r for r in sat_res if r.get("events"))
-    evs = read_events(first["events"])
-    bad1, bad2 = [], []
-    for e in evs:
-        if e["verdict"] == "sat" and e["cnf"] and len(bad1) < 4:
-            c = copy.deepcopy(e)
-            c["assignment"] = []                           # the recorded assignment is lost: no clause is satisfied
-            c["tid"] = 10 ** 7 + len(bad1)
-            bad1.append(c)
-        if e["verdict"] == "unsat" and len(bad2) < 4 and e["proofs"]:
-            steps = e["proofs"][-1][1]
-            if len(steps) >= 2 and steps[0] < len(e["cnf"]) and e["cnf"][steps[0]]:
-                c = copy.deepcopy(e)
-                c["proofs"][-1][1] = steps[:1]                 # resolution steps dropped: the last clause is not empty
-                c["tid"] = 2 * 10 ** 7 + len(bad2)
-                bad2.append(c)
-    selftest_trace(rep, "C15_SatTrace", bad1, "Satisfies", wd=wd / "st1")
-    selftest_trace(rep, "C15_SatTrace", bad2, "Refutation", wd=wd / "st2")
-    if not ts_res["S"].violated:
-        tevs = read_events(wd / "ev_tseitin.ndjson")
-        bad3 = []
-        for e in tevs:
-            if e["kind"] == "tseitin" and e["outcome"] == "ok" and e["formula"][0] == "atom" and len(bad3) < 3:
-                c = copy.deepcopy(e)
-                c["concl"] = ["not", c["concl"]]           # x1 <-> a, a |- ~x1
-                c["tid"] = 3 * 10 ** 7 + len(bad3)
-                bad3.append(c)
-        selftest_trace(rep, "C15_TseitinTrace", bad3, "Valid", wd=wd / "st3")
-
-    # ---- specification mutants (the oracle is not vacuous)
-    # resolution as sat.py::resolution does it (drop EVERY literal on the pivot name) is unsound on tautological
-    # clauses: the reference must notice ({x | ~x, x} would be refuted)
-    spec_mutant(rep, "resolution_drops_every_literal_on_pivot", "C15_Sat", "C15_Sat_seq2.cfg",
-                [("C15_SatCore.tla", "Resolve(C, D, l) == (C \\ {l}) \\cup (D \\ {Neg(l)})",
-                  "Resolve(C, D, l) == { k \\in C \\cup D : k[1] # l[1] }")],
-                ["ResolutionSound", "RefutationComplete", "CertificateOnlyIfUnsat"], wd=wd, workers=2,
-                env={"VECTOR_FILE": wd / "mutant_vectors.ndjson"})
-    if not quick or dedup:
-        # the algorithm with a back-jump to the HIGHEST level of the learned clause keeps the trail: it must not terminate
-        v0 = wd / ("vec_%s.ndjson" % first["name"])
+    # ---- second specification mutant: the algorithm with a back-jump to the HIGHEST level of the learned clause keeps the
+    # trail and must not terminate (run on the model of the repaired code; on a tree without the repair only in thorough)
+    first = next((r for r in sat_res if r.get("events")), None)
+    if first and (dedup or not quick):
         spec_mutant(rep, "backjump_to_highest_level", "C15_SatImpl", "C15_SatImpl_dedup.cfg",
                     [("C15_SatAlgo.tla", "IN lv[Len(lv) - 1]", "IN lv[Len(lv)]")], ["Progress", "Terminates"], wd=wd, workers=1,
-                    env={"VECTOR_FILE": v0, "EVENT_FILE": first["events"], "CONF_FILE": wd / "mutant_conf.json"})
-    if not quick:
-        spec_mutant(rep, "tseitin_and_without_third_clause", "C15_Tseitin", "C15_Tseitin_small.cfg",
-                    [("C15_Prop.tla", "<< <<N(g[2]), FALSE>>, <<N(g[3]), FALSE>>, <<x, TRUE>> >> >>\n    [] g[1] = \"or\"",
-                      "<< <<x, FALSE>>, <<N(g[3]), TRUE>> >> >>\n    [] g[1] = \"or\"")], ["RefEquisat"], wd=wd, workers=2,
-                    env={"VECTOR_FILE": wd / "mutant_vectors2.ndjson"})
+                    env={"VECTOR_FILE": wd / ("vec_%s.ndjson" % first["name"]), "EVENT_FILE": first["events"], "CONF_FILE": wd / "mutant_conf.json"})
 
 
 def replay(path):
